@@ -560,7 +560,7 @@ func TestC12FreshKeyBurst(t *testing.T) {
 // to return, and the datatype must stay usable for everybody: nothing may keep the lock.
 func TestC12Abandoned(t *testing.T) {
 	col := stats.New("C12", t.Name(),
-		"one key (drawn kind) with 2-3 clients on a drawn deployment; the gate of the fake MongoDB holds the k-th (drawn, 1-6) database command that the next request of client 0 issues for the datatype; while it is held the caller cancels the request's context (drawn: before the command is released / the command is released first and the cancellation follows at once / no cancellation at all, as control); then every client, client 0 included, issues operations and syncs the key one after the other; "+
+		"one key (drawn kind) with 2-3 clients on a drawn deployment; the gate of the fake MongoDB holds the k-th (drawn, 1-6) database command that the next request of client 0 (for documents in half of the cases: a REST patch) issues for the datatype; while it is held the caller cancels the request's context (drawn: before the command is released / the command is released first and the cancellation follows at once / no cancellation at all, as control); then every client, client 0 included, issues operations and syncs the key one after the other; "+
 			"oracle: the abandoned call returns within the deadline, every later sync is answered within the deadline and none is refused for the lock, at most one later request per client is refused at all (the roll-forward of a half-stored push refuses the request that discovers it), log invariants and convergence at the end; non-trivial = the request was cancelled while one of its commands was held; distinct = kind, k, mode, deployment, operation counts")
 	checkProp(t, "C12", col, func(c *caseCtx) {
 		rt := c.rt
@@ -585,7 +585,9 @@ func TestC12Abandoned(t *testing.T) {
 		holdAt := rapid.IntRange(1, 6).Draw(rt, "hold_command")
 		mode := rapid.SampledFrom([]string{"cancel-then-release", "cancel-then-release", "release-then-cancel", "no-cancel"}).Draw(rt, "mode")
 		nops := rapid.IntRange(0, 3).Draw(rt, "ops_in_abandoned_request")
-		c.j.Header = map[string]interface{}{"kind": kind, "id_seed": idseed, "deployment": dep, "clients": nc, "hold_command": holdAt, "mode": mode, "ops": nops}
+		// documents: the abandoned request is a REST patch in half of the cases
+		viaPatch := kind == sim.Document && rapid.Bool().Draw(rt, "abandoned_request_is_a_rest_patch")
+		c.j.Header = map[string]interface{}{"kind": kind, "id_seed": idseed, "deployment": dep, "clients": nc, "hold_command": holdAt, "mode": mode, "ops": nops, "abandoned_rest_patch": viaPatch}
 		k := w.keys[0]
 		var cls []*l1Client
 		for i := 0; i < nc; i++ {
@@ -625,6 +627,11 @@ func TestC12Abandoned(t *testing.T) {
 		done := make(chan struct{})
 		go func() {
 			defer close(done)
+			if viaPatch {
+				patchesHappened = true
+				_, exA.rpcErr, exA.timedOut = w.env.PatchDocumentCtx(ctx, &model.PatchMessage{Collection: w.col, Key: k.Name, Json: fmt.Sprintf(`{"abandoned":%d,"arr":[1,2]}`, nops)}, l1Deadline)
+				return
+			}
 			exA.resp, exA.rpcErr, exA.timedOut = w.env.ProcessPushPullCtx(ctx, req, l1Deadline)
 		}()
 		held := w.env.Mongo.WaitPending(1, 2*time.Second)
@@ -665,9 +672,11 @@ func TestC12Abandoned(t *testing.T) {
 				c.failf("a request that nobody cancelled failed: %v", exA.rpcErr)
 			}
 		}
-		w.record(cls[0], exA)
-		if exA.rpcErr == nil {
-			w.apply(cls[0], exA)
+		if !viaPatch {
+			w.record(cls[0], exA)
+			if exA.rpcErr == nil {
+				w.apply(cls[0], exA)
+			}
 		}
 		w.env.WaitBackground(5 * time.Second)
 		// everybody goes on using the datatype
@@ -703,6 +712,21 @@ func TestC12Abandoned(t *testing.T) {
 				}
 			}
 		}
+		if kind == sim.Document {
+			// the REST endpoint has a lock of its own for the key
+			patchesHappened = true
+			var perr error
+			var pto bool
+			for attempt := 0; attempt < 2; attempt++ {
+				_, perr, pto = w.env.PatchDocument(&model.PatchMessage{Collection: w.col, Key: k.Name, Json: `{"after":true}`}, l1Deadline)
+				if perr == nil || pto || strings.Contains(perr.Error(), "fail to lock") {
+					break
+				}
+			}
+			if perr != nil || pto {
+				c.failf("after a request for the datatype was abandoned by its caller (held command: %s, mode %s, rest patch: %v), a REST patch of the document is not served: err=%v timeout=%v", heldVerb, mode, viaPatch, perr, pto)
+			}
+		}
 		w.env.WaitBackground(5 * time.Second)
 		if err := w.checkLogInvariants(); err != nil {
 			c.failf("%v", err)
@@ -715,6 +739,6 @@ func TestC12Abandoned(t *testing.T) {
 			c.failf("%v", err)
 		}
 		cancelled := held && mode != "no-cancel"
-		col.Case(cancelled, fmt.Sprint(kind, holdAt, mode, dep, nops, nc, order), []string{"mode=" + mode, fmt.Sprintf("held=%v", held), "held-command=" + heldVerb, dep, fmt.Sprintf("later-refusals=%d", refusals)}, func() interface{} { return c.j.Header })
+		col.Case(cancelled, fmt.Sprint(kind, holdAt, mode, dep, nops, nc, order), []string{"mode=" + mode, fmt.Sprintf("held=%v", held), "held-command=" + heldVerb, dep, fmt.Sprintf("later-refusals=%d", refusals), fmt.Sprintf("abandoned-rest-patch=%v", viaPatch)}, func() interface{} { return c.j.Header })
 	})
 }
